@@ -470,6 +470,7 @@ func init() {
 				{1, "F0", "2"}, {1, "F0F0", "21"}, {1, "F0F0F0", "102"}, {1, "T0T0", "12"}, {1, "S0S0", "11"},
 				{1, "M0", "21"}, {1, "I0", "12"}, {1, "F0|F0F0", "121"}, {1, "M0|F0", "111"},
 				{2, "T0T1", "12"}, {2, "T0T1T0", "121"}, {2, "T1T1", "21"}, {2, "S0S1S0", "112"}, {2, "T0T1|T1", "111"},
+				{2, "T0T1", "10"}, {1, "F0", "0"}, {1, "F0F0", "00"}, {2, "T0T1T1", "200"}, // empty samples / an all-empty last run
 			}
 			if tier == "thorough" {
 				pats = append(pats, pat{1, "F0F0F0F0", "1230"}, pat{1, "M0M0", "1212"}, pat{1, "I0|I0", "1221"}, pat{1, "S0S0|T0", "123"},
@@ -709,8 +710,10 @@ func init() {
 				"a":   {1, 21, 22, 43, 64, 100},
 				"vav": {1, 40, 41, 80, 120, 159, 160, 161, 250},
 				"vh":  {1, 416, 417, 834, 1000, 1700},
+				"va+L": {1, 41, 80, 100},
+				"vc+L": {40, 81},
 			}
-			for _, lay := range []string{"v", "vc", "va", "a", "vav", "vh"} {
+			for _, lay := range []string{"v", "vc", "va", "a", "vav", "vh", "va+L", "vc+L"} {
 				for v := 0; v < 4; v++ {
 					// symbolic duration: all crop durations 1..400 ms in one instance
 					c := inst(p, "VerifC10", lay, "-1", fmt.Sprint(v&1 == 1), fmt.Sprint(v&2 == 2))
